@@ -205,6 +205,36 @@ where
     R: Send + Clone + 'static,
     F: Fn(J) -> R + Send + Sync + 'static,
 {
+    run_pool_watchdog_opt(jobs, threads, limit, usize::MAX, f)
+        .into_iter()
+        .map(|r| r.unwrap_or_else(|_| on_timeout.clone()))
+        .collect()
+}
+
+/// why a job of `run_pool_watchdog_opt` has no result
+#[derive(Debug, Clone, Copy, PartialEq)]
+pub enum Stuck {
+    /// the job did not return within the limit; its thread was abandoned (it may still be spinning)
+    Timeout,
+    /// the job was never started because `max_abandoned` threads had already been abandoned
+    Skipped,
+}
+
+/// The general form: results are `Err(Stuck::Timeout)` for jobs whose thread had to be abandoned, and
+/// once `max_abandoned` threads have been abandoned (each may burn a core until the process exits) the
+/// jobs not yet started are not run at all and get `Err(Stuck::Skipped)`.
+pub fn run_pool_watchdog_opt<J, R, F>(
+    jobs: Vec<J>,
+    threads: usize,
+    limit: std::time::Duration,
+    max_abandoned: usize,
+    f: F,
+) -> Vec<Result<R, Stuck>>
+where
+    J: Send + 'static,
+    R: Send + 'static,
+    F: Fn(J) -> R + Send + Sync + 'static,
+{
     use std::collections::HashMap;
     use std::sync::{mpsc, Arc, Mutex};
     use std::time::Instant;
@@ -221,9 +251,17 @@ where
         let tx = tx.clone();
         let f = f.clone();
         std::thread::spawn(move || loop {
-            let job = queue.lock().unwrap().pop();
+            // take the job and register it in one step, so that the supervisor never sees an empty
+            // queue and an empty in-flight table while a job is being handed over
+            let job = {
+                let mut q = queue.lock().unwrap();
+                let job = q.pop();
+                if let Some((i, _)) = &job {
+                    inflight.lock().unwrap().insert(wid, (*i, Instant::now()));
+                }
+                job
+            };
             let Some((i, j)) = job else { break };
-            inflight.lock().unwrap().insert(wid, (i, Instant::now()));
             let r = f(j);
             inflight.lock().unwrap().remove(&wid);
             if tx.send((wid, i, r)).is_err() {
@@ -235,14 +273,14 @@ where
         spawn(next_worker.get());
         next_worker.set(next_worker.get() + 1);
     }
-    let mut results: Vec<Option<R>> = (0..n).map(|_| None).collect();
+    let mut results: Vec<Option<Result<R, Stuck>>> = (0..n).map(|_| None).collect();
     let mut abandoned: Vec<usize> = vec![];
     let mut done = 0;
     while done < n {
         match rx.recv_timeout(std::time::Duration::from_millis(200)) {
             Ok((wid, i, r)) => {
                 if !abandoned.contains(&wid) && results[i].is_none() {
-                    results[i] = Some(r);
+                    results[i] = Some(Ok(r));
                     done += 1;
                 }
             }
@@ -260,12 +298,23 @@ where
             abandoned.push(w);
             inflight.lock().unwrap().remove(&w);
             if results[i].is_none() {
-                results[i] = Some(on_timeout.clone());
+                results[i] = Some(Err(Stuck::Timeout));
                 done += 1;
             }
-            spawn(next_worker.get());
-            next_worker.set(next_worker.get() + 1);
+            if abandoned.len() >= max_abandoned {
+                // stop feeding the pool: whatever has not been started is skipped
+                let skipped: Vec<(usize, J)> = queue.lock().unwrap().drain(..).collect();
+                for (k, _) in skipped {
+                    if results[k].is_none() {
+                        results[k] = Some(Err(Stuck::Skipped));
+                        done += 1;
+                    }
+                }
+            } else {
+                spawn(next_worker.get());
+                next_worker.set(next_worker.get() + 1);
+            }
         }
     }
-    results.into_iter().map(|r| r.unwrap_or_else(|| on_timeout.clone())).collect()
+    results.into_iter().map(|r| r.unwrap_or(Err(Stuck::Timeout))).collect()
 }
